@@ -12,12 +12,13 @@ VARIABLES slot, go, e
 
 Exts == << <<>>,
            <<59, 97>>,                                 \* ;a
-           <<59, 97, 61, 98>>,                         \* ;a=b
+           <<59, 97, 98, 61, 99, 100>>,                \* ;ab=cd   (tokens of more than one byte: a split can fall inside)
            <<59, 97, 61, 34, 113, 92, 34, 34>>,        \* ;a="q\""
            <<32, 59, 97>>,                             \* BWS ;a
            <<59, 32, 97, 32, 61, 32, 98>>,             \* ; a = b
            <<59, 97, 59, 98, 61, 99>>,                 \* ;a;b=c
-           <<59, 97, 61, 34, 34, 9, 59, 98>> >>        \* ;a="" HTAB ;b
+           <<59, 97, 61, 34, 34, 9, 59, 98>>,          \* ;a="" HTAB ;b
+           <<59, 97, 61, 98>> >>                       \* ;a=b
 Trailers == << <<>>, <<65, 58, 32, 98, 13, 10>>, <<65, 58, 98, 13, 10, 67, 58, 13, 10>> >>
 RECURSIVE Rep(_, _)
 Rep(b, k) == IF k = 0 THEN <<>> ELSE <<b>> \o Rep(b, k - 1)
